@@ -478,7 +478,8 @@ RetransEv ==
        \* spaced by the response time-out (lower bound, 20 % tolerance)
        !.rtSpacing = (\A i \in 1..(cnt - 1) : 10 * (e.tx[i + 1] - e.tx[i]) >= 8 * e.tMs),
        \* it stops as soon as a response with that sequence number arrives; dead only when every transmission went unanswered
-       !.rtOutcome = (IF e.mode = "none" THEN cnt = 1 + e.n /\ e.dead ELSE cnt = e.k /\ ~e.dead)]
+       \* (e.slow: the scripted peer's own answer left more than half a time-out late - not judged)
+       !.rtOutcome = (IF e.mode = "none" THEN cnt = 1 + e.n /\ e.dead ELSE e.slow \/ (cnt = e.k /\ ~e.dead))]
   /\ last' = [ev |-> "retrans", kind |-> e.mode, accepted |-> FALSE, u |-> "-"]
   /\ Advance
 \* C12: a Heartbeat Request of the peer in the middle of the agent's heartbeat interval postpones the agent's next one
